@@ -248,11 +248,11 @@ func TestVerifC19SingleCallExhaustive(t *testing.T) {
 
 type c19Call struct {
 	idx      int
-	entered  chan string      // If-None-Match seen when the call enters Do (after header enrichment)
-	doRound  chan struct{}    // permission: compute the server's answer now
-	rounded  chan struct{}    // answer computed
-	doReturn chan struct{}    // permission: return from Do (response adjustment follows)
-	done     chan error       // Call returned
+	entered  chan string   // If-None-Match seen when the call enters Do (after header enrichment)
+	doRound  chan struct{} // permission: compute the server's answer now
+	rounded  chan struct{} // answer computed
+	doReturn chan struct{} // permission: return from Do (response adjustment follows)
+	done     chan error    // Call returned
 	resp     c19Resp
 	inm      string
 	answer   string // "200:<version>" or "304:<etag version>"
@@ -449,7 +449,9 @@ func TestVerifC19ExpireInFlight(t *testing.T) {
 		code := []int{200, 304, 412, 500}[c.Int(4)]
 		strict := c.Bool()
 		respEtag := c.PickStr("", `"e1"`, `"e2"`)
-		c.Describe(func() any { return map[string]any{"code": code, "strict": strict, "responseETag": respEtag, "etag": "expires-in-flight"} })
+		c.Describe(func() any {
+			return map[string]any{"code": code, "strict": strict, "responseETag": respEtag, "etag": "expires-in-flight"}
+		})
 		calls := 0
 		inm := ""
 		client := &scriptedClient{}
